@@ -35,6 +35,7 @@ type Clause struct {
 type LoopSpec struct {
 	Ord        string
 	Invariants []*Clause
+	Decreases  *Clause // loop variant: non-negative at the head whenever the body runs, strictly smaller at every back edge
 }
 
 type FuncContract struct {
@@ -160,8 +161,8 @@ func ParseContractFile(path, pkg string) (*ContractFile, error) {
 			}
 			ord, r2 := splitFirst(rest)
 			kw2, r3 := splitFirst(r2)
-			if kw2 != "invariant" {
-				return nil, fail(fmt.Errorf("expected 'invariant'"))
+			if kw2 != "invariant" && kw2 != "decreases" {
+				return nil, fail(fmt.Errorf("expected 'invariant' or 'decreases'"))
 			}
 			cl, err := parseClause(r3, l.line)
 			if err != nil {
@@ -172,7 +173,11 @@ func ParseContractFile(path, pkg string) (*ContractFile, error) {
 				ls = &LoopSpec{Ord: ord}
 				cur.Loops[ord] = ls
 			}
-			ls.Invariants = append(ls.Invariants, cl)
+			if kw2 == "decreases" {
+				ls.Decreases = cl
+			} else {
+				ls.Invariants = append(ls.Invariants, cl)
+			}
 		case "pure", "trusted", "maypanic", "nosafety", "inline", "noframe", "readonly", "opaque_strings", "string_len_bound", "byte_len", "readonly_model":
 			if cur == nil {
 				return nil, fail(fmt.Errorf("%s outside func", kw))
